@@ -260,14 +260,11 @@ theorem release_inv (env : Env) {s : State} (h : InvNum s) (r : Nat) (d : Bool) 
   unfold release
   split
   · exact h.fail _
-  · have h0 : InvNum { s with holders := s.holders.filter (·.req != r) } :=
-      h.frame rfl rfl rfl rfl rfl rfl rfl
-    simp only
-    split
-    · exact h0.fail _
+  · split
+    · exact h.fail _
     · split
-      · exact h0.fail _
-      · exact h0.fail _
-      · exact relRoute_inv env (maybeTick_inv (unlend_inv h0 _ _ _)) _ _ _
+      · exact h.fail _
+      · exact h.fail _
+      · exact relRoute_inv env (maybeTick_inv (unlend_inv h _ _ _)) _ _ _
 
 end EdbVerif.Pool
